@@ -523,11 +523,26 @@ pub fn run_check(def: &CheckDef, tier: Tier) -> i32 {
 	let mut confirmed: Vec<(CaseLine, String)> = Vec::new();
 	for (l, died) in violations.iter().take(5) {
 		let path = l.replay.clone().unwrap_or_default();
-		let st = Command::new(&exe).arg("replay").arg(&path).stdin(Stdio::null()).stdout(Stdio::piped()).stderr(Stdio::null()).output();
+		// bounded: a replay that hangs is killed after 240 s
+		let st = (|| -> std::io::Result<(Option<i32>, String)> {
+			let outp = outdir.join("replay.out");
+			let f = std::fs::File::create(&outp)?;
+			let mut c = Command::new(&exe).arg("replay").arg(&path).stdin(Stdio::null()).stdout(f).stderr(Stdio::null()).spawn()?;
+			let t1 = real_monotonic_ns();
+			loop {
+				if let Some(s) = c.try_wait()? {
+					return Ok((s.code(), std::fs::read_to_string(&outp).unwrap_or_default()));
+				}
+				if real_monotonic_ns() - t1 > 240_000_000_000 {
+					let _ = c.kill();
+					let _ = c.wait();
+					return Ok((None, "replay exceeded 240 s (hang)".into()));
+				}
+				unsafe { libc::usleep(20_000) };
+			}
+		})();
 		match st {
-			Ok(o) => {
-				let code = o.status.code();
-				let txt = String::from_utf8_lossy(&o.stdout).to_string();
+			Ok((code, txt)) => {
 				if code == Some(1) || (*died && code != Some(0)) {
 					confirmed.push((l.clone(), path));
 				} else if code == Some(3) {
